@@ -283,11 +283,13 @@ func (s *session) updateBytes(name string, u sessUpd) []byte {
 	ann4, ann6 := s.nlris(u.Announce, false), s.nlris(u.Announce, true)
 	wd4, wd6 := s.nlris(u.Withdraw, false), s.nlris(u.Withdraw, true)
 	attrs := []byte{}
+	var mpreach []byte
 	if len(ann6) > 0 {
 		v := append([]byte{0, 2, 1, 16}, []byte{0x20, 0x01, 0x0d, 0xb8, 0, 0, 0, 0, 0, 0, 0, 0, 0, 0, 0, 0xc9}...)
 		v = append(v, 0)
 		v = append(v, wire.EncNLRI(ann6, ap)...)
-		attrs = append(attrs, wire.Attr(0x80, wire.AttrMPReach, v, false)...)
+		mpreach = wire.Attr(0x80, wire.AttrMPReach, v, false)
+		attrs = append(attrs, mpreach...)
 		attrs = append(attrs, s.validAttrs(true)...)
 	}
 	if len(wd6) > 0 {
@@ -357,6 +359,12 @@ func (s *session) updateBytes(name string, u sessUpd) []byte {
 		body = wire.UpdateBody(nil, cat(origin, aspath, lp), nlri)
 	case "noAttrs":
 		body = wire.UpdateBody(nil, nil, nlri)
+	case "noNextHopMP": // IPv4 NLRI next to an MP_REACH_NLRI: the IPv6 next hop in there is not the NEXT_HOP of the IPv4 routes
+		body = wire.UpdateBody(nil, cat(mpreach, origin, aspath, lp), nlri)
+	case "mpNoOrigin":
+		body = wire.UpdateBody(nil, cat(mpreach, aspath, lp), nil)
+	case "mpNoASPath":
+		body = wire.UpdateBody(nil, cat(mpreach, origin, lp), nil)
 	case "nlriTrunc":
 		n := []byte{24, 10, 1}
 		if ap {
